@@ -12,7 +12,8 @@ EXPLANATION = (
     "scoped enums: that path plus +<Class>). T4: pointer property, constructor, delete, display and the static "
     "block are appended unconditionally, methods/property accessors iff the class has any, and the classdef "
     "names the declared base or handle. T5: the MEX source entry is added by the top-level call only and is the "
-    "file generate_wrapper fills. That each file's *content* is right is C05/C06/C11.")
+    "file generate_wrapper fills. T6: overloads are grouped by name across the whole list (one function file / "
+    "one method per distinct name even when overloads are not adjacent). That each file's *content* is right is C05/C06/C11.")
 ASSUMPTIONS = ["generate_content materialises (folder, [(file, text)]) entries as nested +package folders (read, not re-proved)"]
 
 
@@ -22,3 +23,4 @@ def run(ctx, rep):
     rep.run(RM.rule_package_paths, ctx, rep, "T3", min_sites=4)
     rep.run(RM.rule_classdef_complete, ctx, rep, "T4")
     rep.run(RM.rule_one_mex_source, ctx, rep, "T5")
+    rep.run(RM.rule_group_by_name, ctx, rep, "T6")
